@@ -110,7 +110,12 @@ def make_case(family, i, rng, tier):
     case['headers'] = rng.choice([[], [], [['X-Custom', 'abc']],
                                   [['Authorization', 'Bearer a.b=='],
                                    ['Cookie', 'a=b; c=d']],
-                                  [['Origin', 'http://example.test']]])
+                                  [['Origin', 'http://example.test']],
+                                  # the same name twice, and names that
+                                  # differ in case only
+                                  [['X-Dup', 'one'], ['X-Dup', 'two']],
+                                  [['Cookie', 'a=1'], ['X-Other', 'z'],
+                                   ['cookie', 'b=2']]])
     case['compress'] = rng.random() < 0.4
     case['agent'] = rng.choice([None, None, 'TestAgent/1.0 (x; y)',
                                 u'Agent \u20ac \u0416'])
